@@ -9,7 +9,11 @@
 2. R: harness/cmd/c10 builds each abstract font as a concrete sfnt.Font (TrueType with nested
    composites, simple CFF, CID-keyed CFF with three FDs, GSUB 1.1/4.1, GPOS 2.1, cmap 4/12), calls
    the real Font.Subset / cff Outlines.Subset, Write + Read, and records projections.
-3. V: seeded random larger fonts (up to 12 glyphs) go through the same harness.
+3. V: seeded random larger fonts (up to 12 glyphs) and variants whose character map is laid out
+   against the glyph list (runs that break and re-form under re-keying, formats 4/12/both, astral
+   codes) go through the same harness.  The concrete realisation of each font (component record
+   forms, empty / non-empty composite instructions, simple-glyph instructions) varies with
+   VERIF_SEED and the font; the original font's cmap subtables are encoded by the harness itself.
    All recorded events are judged by TLC with SubsetTrace.tla (the relation of Subset.tla); a
    failing case is re-recorded alone and re-judged before it is reported.
 """
@@ -30,7 +34,9 @@ MANIFEST = {
             "and all duplicate-free glyph lists starting with 0; each (font, list) is replayed into the real "
             "Font.Subset / cff Outlines.Subset on a harness-built concrete font (TrueType with nested composites, "
             "simple and CID-keyed CFF, GSUB 1.1/4.1, GPOS 2.1, cmap 4/12), followed by Write+Read, and TLC judges the "
-            "recorded projections with SubsetTrace.tla; seeded random fonts of up to 12 glyphs go the same way.",
+            "recorded projections with SubsetTrace.tla; seeded random fonts of up to 12 glyphs, and variants whose "
+            "character map is laid out against the glyph list (code runs that break and re-form under re-keying), go "
+            "the same way; component record forms and instruction blocks vary per seed, font and glyph.",
     "note": "Trusted: TLC, the font builder/projector of harness/internal/subx (self-checked per font: the projection of "
             "the built font must be the abstract font). Two readings of 'needed extras' are accepted (between the "
             "ligature+component closure and the joint closure incl. single substitutions); single-substitution rules may "
@@ -153,6 +159,46 @@ def _random_font(rng):
     return F
 
 
+def _adversarial(case, rng):
+    """A variant of a case whose character map is laid out *against* the glyph list: the codes of
+    the listed glyphs form arithmetic progressions in the NEW numbering (code offset = new index
+    offset, stride 1..3, or a permutation of it) with holes, and the codes in the holes belong to
+    glyphs the list drops (or to nobody).  Re-keying then breaks the runs of the original
+    subtable and forms new ones, which is where segment/range encoders go wrong."""
+    F = json.loads(json.dumps(case["f"]))
+    lst = case["list"]
+    n = F["n"]
+    cfg = rng.choice(["4", "12", "12", "4+12"])
+    base = rng.choice([66, 0x4E00, 0xFFF0] if cfg == "4" else [66, 0x4E00, 0xFFFA, 0x1F600])
+    if cfg == "4":
+        base = min(base, 0xFF00)
+    stride = rng.choice([1, 1, 2, 3])
+    dropped = [g for g in range(1, n) if g not in lst]
+    k = len(lst)
+    pos = list(range(1, max(k, 2) + 2))          # new indices 1..k+1 (k.. are possible extras / holes)
+    mode = rng.choice(["run", "run", "perm", "rev"])
+    order = pos[:]
+    if mode == "perm":
+        rng.shuffle(order)
+    elif mode == "rev":
+        order.reverse()
+    cmap = {}
+    for i, j in zip(pos, order):
+        code = base + stride * (i - 1)
+        if j < k and rng.random() < 0.7:
+            cmap[code] = lst[j]                   # a listed glyph: new index j
+        elif dropped and rng.random() < 0.7:
+            cmap[code] = rng.choice(dropped)      # a hole of the subset, a mapped code of the font
+    for g in range(1, n):                         # some more codes elsewhere
+        if rng.random() < 0.3:
+            cmap[base + 40 + 5 * g] = g
+    if cfg == "4+12":
+        cmap[0x1F000 + rng.randint(0, 9)] = rng.randint(1, n - 1)
+    F["cmapcfg"] = cfg
+    F["cmap"] = [[c, cmap[c]] for c in sorted(cmap)]
+    return {"f": F, "list": lst}
+
+
 def _random_cases(seed, nfonts, lists_per_font):
     rng = random.Random(seed * 7919 + 10)
     cases = []
@@ -162,6 +208,32 @@ def _random_cases(seed, nfonts, lists_per_font):
             k = rng.randint(0, F["n"] - 1)
             cases.append({"f": F, "list": [0] + rng.sample(range(1, F["n"]), k)})
     return cases
+
+
+def _small_lists(rng, count):
+    """Plain TrueType / CFF / CID fonts of 4..7 glyphs with random lists (carriers for _adversarial)."""
+    res = []
+    for _ in range(count):
+        kind = rng.choice(["ttf", "ttf", "cff", "cid"])
+        n = rng.randint(4, 7)
+        g = list(range(n))
+        F = {"kind": kind, "n": n, "out": g[:], "w": [300 + 10 * i for i in g],
+             "name": [(-1 if kind == "cid" else i) for i in g],
+             "cid": [(-1 if kind != "cid" else (0 if i == 0 else 2 * i + 3)) for i in g],
+             "fd": [(-1 if kind == "ttf" else (i % 3 if kind == "cid" else 0)) for i in g],
+             "comp": [[] for _ in g], "cmapcfg": "none", "cmap": [], "hasenc": False, "enc": [],
+             "gsub": "none", "ligs": [], "subs": [], "gpos": False, "pairs": []}
+        if kind == "ttf" and rng.random() < 0.6:       # one or two composites (extras behind the list)
+            a = rng.randint(1, n - 1)
+            F["comp"][a] = [rng.choice([x for x in g if x != a])]
+            if rng.random() < 0.5:
+                b = F["comp"][a][0]
+                cand = [x for x in g if x not in (a, b)]
+                if b != 0 and cand:
+                    F["comp"][b] = [rng.choice(cand)]
+        k = rng.randint(1, n - 1)
+        res.append({"f": F, "list": [0] + rng.sample(range(1, n), k)})
+    return res
 
 
 # ----------------------------------------------------------------------------- judging
@@ -264,9 +336,14 @@ def _family(ctx, binp, name, expr, state):
 
 
 def _random(ctx, binp, state):
-    """V: seeded random larger fonts."""
+    """V: seeded random larger fonts, and variants with a character map laid out against the list."""
     nf, nl = ctx.pick((60, 5), (1500, 8))
     rnd = _random_cases(ctx.seed, nf, nl)
+    rng = random.Random(ctx.seed * 104729 + 3)
+    nadv = ctx.pick(1500, 20000)
+    rnd += [_adversarial(rng.choice(rnd), rng) for _ in range(nadv // 3)]
+    small = _small_lists(rng, 2 * nadv // 3)
+    rnd += [_adversarial(c, rng) for c in small]
     uniq = {}
     for c in rnd:
         uniq[json.dumps(c, sort_keys=True)] = c
